@@ -847,7 +847,9 @@ pub fn shrink_text(c: &TextCase) -> Vec<TextCase> {
 
 // ------------------------------------------------------- texts for inline diffs
 
-const IWORDS: [&str; 18] = [
+const IWORDS: [&str; 23] = [
+    // terminal control sequences: complete, cut off inside, and a bare ESC
+    "\u{1b}[31m", "\u{1b}[38;5;", "\u{1b}[", "\u{1b}", "\u{1b}[0m",
     "foo", "bar", "baz", "qux", "a", "bb", "h\u{e9}llo", "w\u{f6}rld", "\u{65e5}\u{672c}\u{8a9e}",
     "x1", "(y)", "f(x)", "=>", "\u{1f642}", "some", "stuff",
     // a genuine replacement character and a zero width space are valid text
